@@ -75,6 +75,120 @@ class Bytes:
         return hash(self.b)
 
 
+class Rng:
+    """An unknown integer known to lie in [lo, hi].  One object = one quantity: copies of the value share the
+    object (also across a fork, where the whole environment is copied consistently), so a branch on a comparison
+    refines every copy."""
+    __slots__ = ("lo", "hi")
+
+    def __init__(self, lo, hi):
+        self.lo, self.hi = lo, hi
+
+    def __repr__(self):
+        return "[%d..%d]" % (self.lo, self.hi)
+
+
+class Cmp:
+    """Boolean: true iff rng's value lies in [lo, hi] (negated when neg)."""
+    __slots__ = ("rng", "lo", "hi", "neg")
+
+    def __init__(self, rng, lo, hi, neg=False):
+        self.rng, self.lo, self.hi, self.neg = rng, lo, hi, neg
+
+    def __repr__(self):
+        return "%s%r in [%d..%d]" % ("!" if self.neg else "", self.rng, self.lo, self.hi)
+
+
+class Utf8:
+    """Bytes known to be well-formed UTF-8 because they are the bytes of a `str` value (type invariant)."""
+
+    def __repr__(self):
+        return "<utf8>"
+
+
+def _ty_range(ty):
+    bits = INT_BITS.get(ty)
+    if bits is None:
+        return None
+    if ty.startswith("i"):
+        return (-(1 << (bits - 1)), (1 << (bits - 1)) - 1)
+    if ty == "char":
+        return (0, 0x10FFFF)
+    return (0, (1 << bits) - 1)
+
+
+def _iv(x):
+    if isinstance(x, int):
+        return (x, x)
+    if isinstance(x, Rng):
+        return (x.lo, x.hi)
+    return None
+
+
+def rng_binop(op, a, b, ty):
+    """Interval arithmetic / comparison when at least one operand is a Rng; returns a value or None."""
+    ia, ib = _iv(a), _iv(b)
+    if ia is None or ib is None:
+        return None
+    base = op.replace("WithOverflow", "").replace("Unchecked", "")
+    cmpops = {"Lt", "Le", "Gt", "Ge", "Eq", "Ne"}
+    if base in cmpops:
+        # decided?
+        lo_a, hi_a = ia
+        lo_b, hi_b = ib
+        truth = None
+        if base == "Lt":
+            truth = True if hi_a < lo_b else (False if lo_a >= hi_b else None)
+        elif base == "Le":
+            truth = True if hi_a <= lo_b else (False if lo_a > hi_b else None)
+        elif base == "Gt":
+            truth = True if lo_a > hi_b else (False if hi_a <= lo_b else None)
+        elif base == "Ge":
+            truth = True if lo_a >= hi_b else (False if hi_a < lo_b else None)
+        elif base == "Eq":
+            truth = True if lo_a == hi_a == lo_b == hi_b else (False if hi_a < lo_b or hi_b < lo_a else None)
+        elif base == "Ne":
+            truth = False if lo_a == hi_a == lo_b == hi_b else (True if hi_a < lo_b or hi_b < lo_a else None)
+        if truth is not None:
+            return int(truth)
+        BIG = 1 << 130
+        if isinstance(a, Rng) and isinstance(b, int):
+            return {"Lt": Cmp(a, -BIG, b - 1), "Le": Cmp(a, -BIG, b), "Gt": Cmp(a, b + 1, BIG), "Ge": Cmp(a, b, BIG),
+                    "Eq": Cmp(a, b, b), "Ne": Cmp(a, b, b, True)}[base]
+        if isinstance(b, Rng) and isinstance(a, int):
+            return {"Lt": Cmp(b, a + 1, BIG), "Le": Cmp(b, a, BIG), "Gt": Cmp(b, -BIG, a - 1), "Ge": Cmp(b, -BIG, a),
+                    "Eq": Cmp(b, a, a), "Ne": Cmp(b, a, a, True)}[base]
+        return UNK
+    tr = _ty_range(ty)
+    lo = hi = None
+    if base == "Add":
+        lo, hi = ia[0] + ib[0], ia[1] + ib[1]
+    elif base == "Sub":
+        lo, hi = ia[0] - ib[1], ia[1] - ib[0]
+    elif base == "Mul" and ia[0] >= 0 and ib[0] >= 0:
+        lo, hi = ia[0] * ib[0], ia[1] * ib[1]
+    elif base == "BitAnd" and ia[0] >= 0 and ib[0] >= 0:
+        lo, hi = 0, min(ia[1], ib[1])
+    elif base == "BitOr" and ia[0] >= 0 and ib[0] >= 0:
+        m = max(ia[1], ib[1])
+        lo, hi = max(ia[0], ib[0]), (1 << m.bit_length()) - 1
+    elif base == "Shr" and ib[0] == ib[1] and 0 <= ib[0] < 128 and ia[0] >= 0:
+        lo, hi = ia[0] >> ib[0], ia[1] >> ib[0]
+    elif base == "Shl" and ib[0] == ib[1] and 0 <= ib[0] < 128 and ia[0] >= 0:
+        lo, hi = ia[0] << ib[0], ia[1] << ib[0]
+    elif base == "Rem" and ib[0] == ib[1] and ib[0] > 0 and ia[0] >= 0:
+        lo, hi = 0, min(ia[1], ib[0] - 1)
+    elif base == "Div" and ib[0] == ib[1] and ib[0] > 0 and ia[0] >= 0:
+        lo, hi = ia[0] // ib[0], ia[1] // ib[0]
+    if lo is None:
+        return None
+    fits = tr is None or (tr[0] <= lo and hi <= tr[1])
+    val = (lo if lo == hi else Rng(lo, hi)) if fits else (Rng(tr[0], tr[1]) if tr else UNK)
+    if op.endswith("WithOverflow"):
+        return Tup([val, 0 if fits else UNK])
+    return val
+
+
 class Part:
     """Aggregate with only some fields known."""
     __slots__ = ("fields",)
@@ -193,6 +307,7 @@ class Sim:
         self.max_depth = max_depth
         self.max_visits = max_visits
         self.npaths = 0
+        self.utf8_by_type = False
         self.statics = {}
         self.adts = {}
         for c in crates:
@@ -323,6 +438,10 @@ class Sim:
                 iv = env[e["i"]]
                 if isinstance(base, Bytes) and isinstance(iv, int):
                     out = base.b[iv] if 0 <= iv < len(base.b) else UNK
+                elif isinstance(base, Bytes) and isinstance(iv, Rng) and base.b:
+                    # an element somewhere in the (bounds-checked) index range
+                    sl = base.b[max(0, iv.lo):min(len(base.b), iv.hi + 1)] or base.b
+                    out = Rng(min(sl), max(sl)) if min(sl) != max(sl) else sl[0]
                 elif isinstance(base, Tup) and isinstance(iv, int):
                     out = base.fields[iv] if 0 <= iv < len(base.fields) else UNK
                 else:
@@ -471,6 +590,8 @@ class Sim:
             a = self.operand(env, rv["a"], path)
             op = rv["op"]
             if op == "Not":
+                if isinstance(a, Cmp):
+                    return Cmp(a.rng, a.lo, a.hi, not a.neg)
                 if isinstance(a, int):
                     ty = self._op_ty(env, rv["a"], fn)
                     if ty == "bool":
@@ -494,6 +615,11 @@ class Sim:
             a = self.operand(env, rv["op"], path)
             ck = rv["ck"]
             if ck.startswith("IntToInt"):
+                if isinstance(a, Rng):
+                    tr = _ty_range(rv["to"])
+                    if tr and tr[0] <= a.lo and a.hi <= tr[1]:
+                        return a          # value-preserving: still the same quantity
+                    return Rng(tr[0], tr[1]) if tr else UNK
                 return wrap(a, rv["to"]) if isinstance(a, int) else UNK
             if ck.startswith("PointerCoercion") or ck.startswith("PtrToPtr") or ck.startswith("Transmute"):
                 if ck.startswith("Transmute") and rv["from"] != rv["to"]:
@@ -532,6 +658,13 @@ class Sim:
         return ""
 
     def binop(self, op, a, b, ty):
+        if isinstance(a, Rng) or isinstance(b, Rng):
+            r = rng_binop(op, a, b, ty)
+            if r is not None:
+                return r
+            if op.endswith("WithOverflow"):
+                return Tup([UNK, UNK])
+            return UNK
         if op in ("Eq", "Ne") and not (isinstance(a, int) and isinstance(b, int)):
             if known(a) and known(b) and not isinstance(a, (Ref, FnItem, Closure)) and not isinstance(b, (Ref, FnItem, Closure)):
                 r = (a == b)
@@ -647,6 +780,25 @@ class Sim:
                                 break
                         bb = tgt
                         continue
+                    if isinstance(v, (Cmp, Rng)):
+                        alts = self._rng_alternatives(v, t)
+                        if alts is not None:
+                            self.npaths += max(0, len(alts) - 1)
+                            if self.npaths > self.max_paths:
+                                raise Limit("path limit in %s" % fn.path)
+                            for (tg, refine) in alts[1:]:
+                                memo = {}
+                                e2 = self._copy_env(env, memo)
+                                p2 = Path()
+                                p2.events = list(path.events)
+                                p2.blocks = list(path.blocks)
+                                p2.heap = {k2: self._copy_val(v2, memo) for k2, v2 in path.heap.items()}
+                                refine(memo)
+                                stack.append((tg, e2, p2, dict(visits)))
+                            tg, refine = alts[0]
+                            refine(None)
+                            bb = tg
+                            continue
                     # unknown: fork
                     tgts = list(dict.fromkeys([x[1] for x in t["targets"]] + [t["otherwise"]]))
                     path.events.append(("fork", fn.path, bb, len(tgts)))
@@ -678,6 +830,60 @@ class Sim:
                 break
         return results
 
+    def _rng_alternatives(self, v, t):
+        """Feasible successors of a switch on a comparison / a ranged integer, each with a refinement of the
+        quantity on that edge.  [(target, refine(memo))]; refine(None) refines in place (the current path)."""
+        def target_for(val):
+            for x, b2 in t["targets"]:
+                xv = int(x) if isinstance(x, str) else x
+                if xv == val:
+                    return b2
+            return t["otherwise"]
+
+        def setter(rng, lo, hi):
+            def refine(memo):
+                r = rng if memo is None else memo.get(id(rng))
+                if r is not None:
+                    r.lo, r.hi = max(r.lo, lo), min(r.hi, hi)
+            return refine
+
+        if isinstance(v, Cmp):
+            r = v.rng
+            ins = (max(r.lo, v.lo), min(r.hi, v.hi))          # value inside the tested interval
+            outs = []
+            if ins[0] <= ins[1]:
+                outs.append((1 if not v.neg else 0, ins))
+            # outside: below and/or above
+            below = (r.lo, min(r.hi, v.lo - 1))
+            above = (max(r.lo, v.hi + 1), r.hi)
+            out_iv = None
+            if below[0] <= below[1] and above[0] <= above[1]:
+                out_iv = (r.lo, r.hi)                          # two pieces: no refinement
+            elif below[0] <= below[1]:
+                out_iv = below
+            elif above[0] <= above[1]:
+                out_iv = above
+            if out_iv is not None:
+                outs.append((0 if not v.neg else 1, out_iv))
+            return [(target_for(b), setter(r, iv[0], iv[1])) for b, iv in outs]
+        if isinstance(v, Rng):
+            alts = []
+            seen_vals = []
+            for x, b2 in t["targets"]:
+                xv = int(x) if isinstance(x, str) else x
+                if v.lo <= xv <= v.hi:
+                    alts.append((b2, setter(v, xv, xv)))
+                    seen_vals.append(xv)
+            if v.hi - v.lo + 1 > len(seen_vals):
+                lo, hi = v.lo, v.hi
+                while lo in seen_vals:
+                    lo += 1
+                while hi in seen_vals:
+                    hi -= 1
+                alts.append((t["otherwise"], setter(v, lo, hi)))
+            return alts or None
+        return None
+
     def _clone(self, env, path):
         """Deep-copy env (with Ref retargeting) and path for a fork."""
         memo = {}
@@ -698,6 +904,12 @@ class Sim:
         return ne
 
     def _copy_val(self, v, memo):
+        if isinstance(v, Rng):
+            if id(v) not in memo:
+                memo[id(v)] = Rng(v.lo, v.hi)
+            return memo[id(v)]
+        if isinstance(v, Cmp):
+            return Cmp(self._copy_val(v.rng, memo), v.lo, v.hi, v.neg)
         if isinstance(v, Adt):
             return Adt(v.adt, v.variant, [self._copy_val(x, memo) for x in v.fields], v.vname)
         if isinstance(v, Tup):
@@ -895,6 +1107,13 @@ class Sim:
                 if clo.path.startswith(("std::prelude::", "std::option::Option::", "std::result::Result::", "core::")) else None
             if ctor and len(cargs) == 1:
                 return [cont(Adt(ctor[0], ctor[1], [cargs[0]]))]
+            # a tuple-variant / tuple-struct constructor of a known type used as a function (`.map(N::PosInt)`)
+            base, _, vname = clo.path.split("::<")[0].rpartition("::")
+            a = self.adts.get(base)
+            if a is not None:
+                for v in a["variants"]:
+                    if v["name"] == vname and len(v["fields"]) == len(cargs):
+                        return [cont(Adt(base, v["idx"], list(cargs), vname))]
             cf = self.find_fn(clo.path)
             if cf is None or depth >= self.max_depth:
                 return None
@@ -927,6 +1146,13 @@ class Sim:
             nf = self._local_next(substs[0]) if substs else None
             if nf is not None:
                 return self._find_map(fn, env, bb, t, path, depth, cont, args[0], f, nf, 0)
+        if p in (O + "map_or_else", R + "map_or_else") and len(args) == 3 and isinstance(x, Adt) \
+                and isinstance(args[1], (Closure, FnItem)) and isinstance(args[2], (Closure, FnItem)):
+            some = x.variant == (1 if p.startswith(O) else 0)
+            if some:
+                return self.call_closure(args[2], [x.fields[0]], fn, env, bb, t, path, depth, cont)
+            # Option: default(); Result: default(err)
+            return self.call_closure(args[1], [] if p.startswith(O) else [x.fields[0]], fn, env, bb, t, path, depth, cont)
         if p in (O + "map_or", R + "map_or") and len(args) == 3 and isinstance(x, Adt) \
                 and isinstance(args[2], (Closure, FnItem)):
             some = x.variant == (1 if p.startswith(O) else 0)
@@ -999,10 +1225,10 @@ class Sim:
 
         rs = c.get("resolved") or ""
         # iteration over a known byte slice / array: `for x in bytes`, `for &x in &[a, b, c]`
-        if has("std::iter::IntoIterator::into_iter") and d and isinstance(d[0], Bytes) and \
+        if has("std::iter::IntoIterator::into_iter") and d and isinstance(d[0], (Bytes, Tup)) and \
                 ("IntoIterator for &'a [T]>" in rs or "IntoIterator for &'a [T; N]>" in rs):
             return ("value", Adt("sim::SliceIter", 0, [d[0], 0]))
-        if has("std::iter::IntoIterator::into_iter") and d and isinstance(d[0], Bytes) and \
+        if has("std::iter::IntoIterator::into_iter") and d and isinstance(d[0], (Bytes, Tup)) and \
                 "IntoIterator for [T; N]>" in rs:
             return ("value", Adt("sim::SliceIter", 0, [d[0], 0, "by-value"]))
         if p.endswith("<impl [T]>::iter") and d and isinstance(d[0], Bytes):
@@ -1010,9 +1236,10 @@ class Sim:
         if has("std::iter::Iterator::next") and d and isinstance(d[0], Adt) and d[0].adt == "sim::SliceIter":
             it = d[0]
             seq, i = it.fields[0], it.fields[1]
-            if i < len(seq.b):
+            elems = seq.b if isinstance(seq, Bytes) else seq.fields
+            if i < len(elems):
                 it.fields[1] = i + 1
-                item = seq.b[i] if len(it.fields) > 2 else Ref([seq.b[i]], 0, ())
+                item = elems[i] if len(it.fields) > 2 else Ref([elems[i]], 0, ())
                 return ("value", Adt("std::option::Option", 1, [item]))
             return ("value", Adt("std::option::Option", 0, []))
         # `for i in a..b` over known integer bounds
@@ -1030,7 +1257,17 @@ class Sim:
             if has(tr) and len(d) == 2 and isinstance(d[0], int) and isinstance(d[1], int) and substs:
                 ty = substs[0].lstrip("&")
                 return ("value", wrap(fnop(d[0], d[1]), ty) if ty in INT_BITS else UNK)
+            if has(tr) and len(d) == 2 and substs and (isinstance(d[0], Rng) or isinstance(d[1], Rng)):
+                rr = rng_binop(tr.rsplit("::", 1)[0].rsplit("::", 1)[1], d[0], d[1], substs[0].lstrip("&"))
+                return ("value", rr if rr is not None else UNK)
         # `&bytes[a..=b]` / `&bytes[a..b]` on a known byte slice
+        if has("std::ops::Index::index") and len(d) == 2 and isinstance(d[0], Bytes) and isinstance(d[1], Adt) \
+                and d[1].adt in ("range-incl", "range") and any(isinstance(x, Rng) for x in d[1].fields[:2]) \
+                and all(isinstance(x, (int, Rng)) for x in d[1].fields[:2]) and d[0].b:
+            # a sub-slice at an unknown (bounds-checked) position: every element lies in the table's range there
+            los, his = _iv(d[1].fields[0]), _iv(d[1].fields[1])
+            sl = d[0].b[max(0, los[0]):min(len(d[0].b), his[1] + 1)] or d[0].b
+            return ("value", Tup([Rng(min(sl), max(sl)) if min(sl) != max(sl) else sl[0]]))
         if has("std::ops::Index::index") and len(d) == 2 and isinstance(d[0], Bytes) and isinstance(d[1], Adt) \
                 and d[1].adt in ("range-incl", "range") and all(isinstance(x, int) for x in d[1].fields[:2]):
             lo, hi = d[1].fields[0], d[1].fields[1] + (1 if d[1].adt == "range-incl" else 0)
@@ -1130,6 +1367,8 @@ class Sim:
             return ("value", Bytes(list(chr(d[0]).encode("utf-8"))))
         if p.endswith("<impl str>::as_bytes") and d and isinstance(d[0], Bytes):
             return ("value", d[0])
+        if (p.endswith("<impl str>::as_bytes") or p.endswith("String::as_bytes")) and self.utf8_by_type:
+            return ("value", Utf8())     # whatever the string is, its bytes are well-formed UTF-8
         if p.endswith("<impl str>::contains") and len(d) == 2 and isinstance(d[0], Bytes):
             # `"!$%&".contains(c)` with a character or a string needle
             hay = bytes(d[0].b)
@@ -1198,6 +1437,8 @@ class Sim:
             return ("value", UNK)
         if has("std::convert::From::from", "std::convert::Into::into"):
             a = d[0] if d else UNK
+            if isinstance(a, Rng) and len(substs) >= 2 and substs[0] in INT_BITS and substs[1] in INT_BITS:
+                return ("value", a)      # lossless widening keeps the quantity
             if isinstance(a, int) and len(substs) >= 2 and substs[0] in INT_BITS and substs[1] in INT_BITS:
                 return ("value", a)
             if isinstance(a, int) and len(substs) >= 2 and substs[0] in INT_BITS:
@@ -1207,6 +1448,15 @@ class Sim:
             return ("value", Adt("range-incl", 0, [d[0], d[1]]))
         if p.endswith("RangeInclusive::<Idx>::contains") or p.endswith("Range::<Idx>::contains"):
             r, x = d[0], d[1]
+            if isinstance(r, Adt) and isinstance(x, Rng) and len(r.fields) >= 2 \
+                    and isinstance(r.fields[0], int) and isinstance(r.fields[1], int):
+                incl = r.adt == "range-incl" or "RangeInclusive" in r.adt
+                lo, hi = r.fields[0], r.fields[1] if incl else r.fields[1] - 1
+                if x.lo >= lo and x.hi <= hi:
+                    return ("value", 1)
+                if x.hi < lo or x.lo > hi:
+                    return ("value", 0)
+                return ("value", Cmp(x, lo, hi))
             if isinstance(r, Adt) and isinstance(x, int) and len(r.fields) >= 2 \
                     and isinstance(r.fields[0], int) and isinstance(r.fields[1], int):
                 if r.adt == "range-incl" or "RangeInclusive" in r.adt:
